@@ -54,6 +54,15 @@ def make_prestate(w, name, kind):
         side = SIDES[w.nd - 1][1]           # the upper face of the last axis (right / top / front)
         getattr(cv.BCs, side).c = w.array(name + '_newc', side_shape(w, w.nd - 1))
         cv.BCs.left.a[:] = w.array(name + '_newa', side_shape(w, 0))
+    if kind == 'cleared-by-sharer':
+        # flags clean but cached term and ghosts STALE: a second variable sharing the BC object was re-synchronised after
+        # an edit of the shared BCs (that clears the shared dirty bits).  Reachable state; apply_BCs must repair it.
+        cv2 = cel.CellVariable(w.mesh, w.array(name + '_sharer', tuple(w.N)), cv.BCs)
+        cv.apply_BCs()
+        side = SIDES[w.nd - 1][1]
+        getattr(cv.BCs, side).c = w.array(name + '_newc', side_shape(w, w.nd - 1))
+        cv.BCs.left.a[:] = w.array(name + '_newa', side_shape(w, 0))
+        cv2.apply_BCs()
     if kind == 'periodic-toggled':
         if not GRIDS[w.grid]['radial'] or w.nd > 1:
             getattr(cv.BCs, SIDES[w.nd - 1][0]).periodic = True
@@ -394,6 +403,28 @@ def _mk_state_classes():
 
 
 _mk_state_classes()
+
+
+class ApplyBCs_cleared_by_sharer(_StateOb):
+    """apply_BCs() re-establishes Inv for its receiver UNCONDITIONALLY -- also when the dirty bits are clear although
+    cache and ghosts are stale (another variable sharing the BC object was re-synchronised after an edit)"""
+    name = 'CellVariable.apply_BCs/establishes_Inv{cleared-by-sharer}'
+    props = ('C09', 'C03')
+    grids = ('Grid1D', 'Grid2D', 'Grid3D')
+
+    def setup(self, w):
+        cv = make_prestate(w, 'phi0', 'cleared-by-sharer')
+        cv.apply_BCs()
+        return dict(cv=cv)
+
+    def parts(self, w):
+        return ['flags'] + [(a, s) for a in range(w.nd) for s in (0, 1)]
+
+    def claims(self, w, S, P, part):
+        cv = S['cv']
+        if part == 'flags':
+            return [('clean_after_apply', self.flag(w, is_clean(cv) and hasattr(cv, '_BCsTerm')))]
+        return inv_claims(w, cv, P, part, 'cv')
 
 
 class SharedBCsOtherVariable(_StateOb):
